@@ -3,6 +3,7 @@ package checks
 import (
 	"encoding/json"
 	"fmt"
+	"path"
 	"sort"
 	"strings"
 
@@ -58,10 +59,41 @@ func c02Extra(quick bool) func(t harness.Tree, probe map[string]fileProbe) []har
 			// failing bodies
 			for _, chunks := range [][]int{{4}, {1, 3}, {2, 2}, {1, 1, 1, 1}} {
 				for k := 0; k <= 4; k++ {
-					for _, e := range []string{"unexpected-eof", "canceled"} {
+					for _, e := range []string{"unexpected-eof", "canceled", "cancel-only"} {
 						out = append(out, harness.Req{Method: "PUT", Path: p, Body: "WXYZ", Fault: &harness.BodyFault{Chunks: chunks, FailAt: k, Err: e}})
 					}
 				}
+			}
+		}
+		// unclean spellings of source and destination (dot and dot-dot segments)
+		unclean := func(p string) []string {
+			return []string{"/." + p, path.Dir(p) + "/zz/../" + path.Base(p), p + "/."}
+		}
+		for _, m := range []string{"COPY", "MOVE"} {
+			for _, src := range paths {
+				if src == "/" {
+					continue
+				}
+				for _, dst := range paths {
+					if dst == "/" {
+						continue
+					}
+					for _, d := range unclean(dst) {
+						out = append(out, harness.Req{Method: m, Path: src, Header: map[string]string{"Destination": d}})
+					}
+					for _, s2 := range unclean(src) {
+						out = append(out, harness.Req{Method: m, Path: s2, Header: map[string]string{"Destination": dst}})
+					}
+				}
+			}
+		}
+		for _, p := range paths {
+			if p == "/" {
+				continue
+			}
+			for _, u := range unclean(p) {
+				out = append(out, harness.Req{Method: "DELETE", Path: u, Raw: true, Header: map[string]string{"If-Match": `"nope"`}})
+				out = append(out, harness.Req{Method: "PUT", Path: u, Raw: true, Body: "u", Header: map[string]string{"If-None-Match": "*"}})
 			}
 		}
 		return out
